@@ -4,10 +4,13 @@
    exactly `deval` (C02_find_matches_exact, any number of recursive steps in any position).
    C02_below_is_exactly_the_descendants: the walk lists the context of a node iff the node is reached from d by a
    non-empty chain of member steps (completeness and soundness).  C02_each_exactly_once: with unique dict keys
-   (`uniq`: every Python dict) the context and its descendants are listed without naming any location twice. *)
+   (`uniq`: every Python dict) the context and its descendants are listed without naming any location twice.
+   C02_shared_objects_*: a document in which one dict or list object is referenced from several places (a DAG, not a
+   tree) is searched exactly as its unfolding into a tree: each occurrence is a node of its own. *)
 From Coq Require Import List ZArith String Bool PArith.
 From TP Require Import Json PyPrim Machine Spec.
-From TP.proofs Require Import RefineBase Refine NextLayer Iterate WfRun Query SpecLemmas Top PropLemmas BelowLemmas.
+From TP Require Import RunC.
+From TP.proofs Require Import RefineBase Refine NextLayer Iterate WfRun Query SpecLemmas Top PropLemmas BelowLemmas DataMap HeapUnfold.
 Import ListNotations.
 
 Theorem C02_find_matches_exact :
@@ -73,3 +76,24 @@ Proof.
       apply uniq_dict; constructor.
     + apply uniq_dict; constructor.
 Qed.
+
+(* documents that share objects: the traverser on the heap is the traverser on the unfolded tree, next() for next() *)
+Theorem C02_shared_objects_next : forall (heap : list hnode) (P2 : Type)
+    (ev2 : P2 -> @tm json -> @tracecfg json -> res json * list (@event json)),
+  dagb heap = true ->
+  forall B src (vp : list (vertex Empty_set)) t z,
+    next jshape P2 ev2 B (msrc (unfold heap) src) (map (map_vx no_pred) vp) (mtr (unfold heap) t)
+         (mstate (unfold heap) z) =
+    let '(o, z', evs) := next (hshape heap) Empty_set ev_none B src vp t z in
+    (mout (unfold heap) o, mstate (unfold heap) z', map (mev (unfold heap)) evs).
+Proof. exact heap_next_is_tree_next. Qed.
+Print Assumptions C02_shared_objects_next.
+
+Theorem C02_shared_objects_are_nodes_of_their_own : forall heap root (vp : list (vertex Empty_set)) tr,
+  dagb heap = true -> valid_path Empty_set vp = true ->
+  exists k : nat, forall B fuel, (k < Pos.to_nat B)%nat ->
+    (List.length (deval Empty_set sev0 vp (abs (root_match (SrcDoc (unfold heap root))))) < fuel)%nat ->
+    exact_answer Empty_set sev0 (SrcDoc (unfold heap root)) vp
+                 (map (mitem (unfold heap)) (hdrain heap (SrcDoc root) vp tr fuel B init_state)).
+Proof. exact shared_document_search. Qed.
+Print Assumptions C02_shared_objects_are_nodes_of_their_own.
